@@ -84,27 +84,38 @@ Proof.
   rewrite Hpls. reflexivity.
 Qed.
 
+Lemma TTInv_weaken : forall te td t t', TTInv te td t -> t <= t' -> TTInv te td t'.
+Proof.
+  intros te td t t' [A [B [C [D E]]]] Ht. unfold TTInv.
+  split; [exact A|]. split; [exact B|]. split; [lia|]. split; [|exact E].
+  intros id Hv. destruct (D id Hv) as [D1 [D2 [D3 D4]]].
+  split; [exact D1|]. split; [exact D2|]. split; [lia | exact D4].
+Qed.
+
 (* ---------- one block ---------- *)
 
 Definition leaf_of (t : ttree) (b : eblock) : Z * Z := (0, eb_cby b * tt_w t + eb_cbx b).
 
 Lemma block_sync : forall termAll it zt itd ztd b st l tI tZ bs ei b' it' zt' rest r more,
-  0 <= l -> l + 1 <= 999 -> 0 <= eb_zbp b < 32 -> block_layer_ok termAll b l ->
+  0 <= eb_zbp b < 32 -> block_layer_ok termAll b l ->
   TTInv it itd tI -> TTInv zt ztd tZ ->
   tt_in_range it (eb_cbx b) (eb_cby b) = true -> tt_in_range zt (eb_cbx b) (eb_cby b) = true ->
   (eb_included b = false ->
-     nv it (leaf_of it b) = (if b_inc b l then l else 999) /\ nv zt (leaf_of zt b) = eb_zbp b) ->
+     nu it (leaf_of it b) = negb (b_inc b l) /\ (b_inc b l = true -> nv it (leaf_of it b) = l) /\
+     nu zt (leaf_of zt b) = false /\ nv zt (leaf_of zt b) = eb_zbp b) ->
   BlkRel b st ->
   enc_block it zt b l = Ok (bs, ei, b', it', zt') -> BitsAt rest r (bs ++ more) ->
   exists st' itd' ztd' r',
     dec_block r itd ztd st (eb_cbx b) (eb_cby b) l termAll = Ok (expect_dincl termAll b l, st', itd', ztd', r') /\
     BitsAt rest r' more /\ ei = expect_eincl b l /\
     TTInv it' itd' (Z.max tI (l + 1)) /\ (exists tZ', TTInv zt' ztd' tZ') /\
-    tt_nodes it' = tt_nodes it /\ tt_nodes zt' = tt_nodes zt /\ same_geom it it' /\ same_geom zt zt' /\
+    tt_nodes it' = tt_nodes it /\ tt_nodes zt' = tt_nodes zt /\
+    tt_unset it' = tt_unset it /\ tt_unset zt' = tt_unset zt /\ same_geom it it' /\ same_geom zt zt' /\
     BlkRel b' st' /\ same_static b b' /\ eb_included b' = eb_included b || b_inc b l.
 Proof.
   intros termAll it zt itd ztd b st l tI tZ bs ei b' it' zt' rest r more
-         Hl0 Hl Hz Hok HTi HTz Hri Hrz Hleaf [R1 [R2 [R3 [R4 R5]]]] He HB.
+         Hz Hok HTi HTz Hri Hrz Hleaf HR He HB.
+  pose proof HR as [R1 [R2 [R3 [R4 R5]]]].
   unfold enc_block in He. fold (contrib b l) in He.
   destruct (contrib b l) as [[inc np] data] eqn:Ec.
   assert (Einc : b_inc b l = inc) by (unfold b_inc; rewrite Ec; reflexivity).
@@ -134,22 +145,20 @@ Proof.
       cbn [app] in HB. destruct (bitsat_step _ _ _ _ HB) as [r1 [Eb HB1]].
       rewrite Eb. cbn [obind fst snd]. change (1 =? 1) with true. cbn [negb].
       rewrite <- Enp, <- Edata, <- Eprev in E4. rewrite <- Enp in E3.
-      rewrite app_assoc in HB1.
       destruct (cont_sync termAll b l (eb_nlb b) bs3 bs4 nlb' st false (db_zbp st) itd ztd rest r1 more
                   Hok Einc E3 E4 (eq_sym R2) R3 HB1) as [r2 [Ec2 [HB2 [Hb2 Hn2]]]].
       exists (db_set st (db_included st) (db_first st) (db_zbp st) (db_passes st + b_np b l) nlb'), itd, ztd, r2.
       split.
       { rewrite Ec2. unfold expect_dincl. rewrite Einc, Eincl, (R4 eq_refl). reflexivity. }
       split; [exact HB2|]. split; [unfold expect_eincl; rewrite Einc, Enp, Edata; reflexivity|].
-      split; [destruct HTi as [A [B [C [D E]]]]; unfold TTInv; repeat split; try assumption; try lia;
-              intros id Hv; destruct (D id Hv) as [D1 [D2 [D3 D4]]]; repeat split; try assumption; try apply D2; lia|].
+      split; [apply (TTInv_weaken it itd tI); [exact HTi | lia]|].
       split; [exists tZ; exact HTz|]. split; [reflexivity|]. split; [reflexivity|].
+      split; [reflexivity|]. split; [reflexivity|].
       split; [apply same_geom_refl; exact Hgs_i|]. split; [apply same_geom_refl; exact Hgs_z|].
       split.
       { unfold BlkRel, db_set, eb_with. cbn [db_included db_nlb db_zbp eb_included eb_nlb eb_zbp].
-        rewrite R1, Eincl. repeat split; try assumption; try lia; try congruence.
-        - intros _. apply R4. reflexivity.
-        - discriminate. }
+        rewrite R1, Eincl. split; [reflexivity|]. split; [reflexivity|]. split; [rewrite Hn2; exact Hb2|].
+        split; [intros _; apply R4; reflexivity | discriminate]. }
       split; [unfold same_static, eb_with; cbn; reflexivity|].
       unfold eb_with. cbn [eb_included]. rewrite Eincl. reflexivity.
     + (* nothing in this layer *)
@@ -161,39 +170,42 @@ Proof.
       exists st, itd, ztd, r1.
       split; [unfold expect_dincl; rewrite Einc; reflexivity|]. split; [exact HB1|].
       split; [unfold expect_eincl; rewrite Einc; reflexivity|].
-      split; [destruct HTi as [A [B [C [D E]]]]; unfold TTInv; repeat split; try assumption; try lia;
-              intros id Hv; destruct (D id Hv) as [D1 [D2 [D3 D4]]]; repeat split; try assumption; try apply D2; lia|].
+      split; [apply (TTInv_weaken it itd tI); [exact HTi | lia]|].
       split; [exists tZ; exact HTz|]. split; [reflexivity|]. split; [reflexivity|].
+      split; [reflexivity|]. split; [reflexivity|].
       split; [apply same_geom_refl; exact Hgs_i|]. split; [apply same_geom_refl; exact Hgs_z|].
-      split; [unfold BlkRel; repeat split; try assumption; congruence|].
+      split; [exact HR|].
       split; [unfold same_static, eb_with; destruct b; reflexivity|].
       rewrite Eincl. reflexivity.
   - (* not yet included: inclusion tag tree with threshold layer+1 *)
-    destruct (Hleaf eq_refl) as [Hli Hlz]. rewrite Einc in Hli.
+    destruct (Hleaf eq_refl) as [Hlu [Hli [Hlzu Hlz]]]. rewrite Einc in Hlu, Hli.
     destruct (tt_encode it (eb_cbx b) (eb_cby b) (l + 1)) as [[bs1 it1]| | |] eqn:E1; cbn [obind] in He; try discriminate.
     cbn [fst snd] in He.
     assert (HB0 : BitsAt rest r (bs1 ++ (match inc with true => skipn (length bs1) bs | false => [] end) ++ more) /\ True).
     { split; [|exact I]. destruct inc.
       - assert (Hpre : exists tl, bs = bs1 ++ tl).
         { destruct (tt_encode zt (eb_cbx b) (eb_cby b) 999) as [[bs2 zt1]| | |]; cbn [obind] in He; try discriminate.
-          cbn [fst snd] in He. destruct (enc_numpasses np); cbn [obind] in He; try discriminate.
+          cbn [fst snd] in He. destruct (enc_numpasses np) as [bs3| | |]; cbn [obind] in He; try discriminate.
           destruct (prev_and_total_passes false _ _ l np) as [prev total].
           destruct (enc_lengths _ _ _ _ _ _ _) as [[bs4 nlb']| | |]; cbn [obind] in He; try discriminate.
-          apply ok_inj in He. eexists. rewrite <- app_assoc in He.
-          assert (Hbs : bs = bs1 ++ bs2 ++ l0 ++ fst (bs4, nlb')) by congruence. exact Hbs. }
+          apply ok_inj in He. exists (bs2 ++ bs3 ++ bs4).
+          assert (Hbs : bs = (bs1 ++ bs2) ++ bs3 ++ fst (bs4, nlb')) by congruence.
+          rewrite Hbs. cbn [fst]. rewrite <- app_assoc. reflexivity. }
         destruct Hpre as [tl ->]. rewrite skipn_app, skipn_all, Nat.sub_diag. cbn [skipn app].
         rewrite <- app_assoc in HB. exact HB.
       - cbn [negb] in He. apply ok_inj in He. assert (bs = bs1) by congruence. subst bs. cbn [app]. exact HB. }
     destruct HB0 as [HB0 _].
     destruct (tt_query_sync it itd tI (eb_cbx b) (eb_cby b) (l + 1) (l + 1) bs1 it1 rest r _ HTi Hri
-                ltac:(left; reflexivity) ltac:(fold (leaf_of it b); rewrite Hli; destruct inc; lia) E1 HB0)
-      as [res [itd1 [r1 [Ed1 [HB1 [HTi1 [Hn1 [Hg1 [Hres Hk1]]]]]]]]].
-    fold (leaf_of it b) in Hres, Hk1. rewrite Hli in Hres, Hk1.
+                ltac:(left; reflexivity) E1 HB0)
+      as [res [itd1 [r1 [Ed1 [HB1 [HTi1 [Hn1 [Hu1 [Hg1 [Hres [Hres' [Hk1 Hk1']]]]]]]]]]]].
+    fold (leaf_of it b) in Hres, Hres', Hk1, Hk1'.
     unfold tt_decode_inclusion. rewrite Ed1. cbn [obind].
     destruct inc; cbn [negb] in He.
     + (* first inclusion *)
-      rewrite (Hk1 ltac:(lia)) in Hres. subst res.
-      destruct (Z.gtb_spec l l); [lia|]. cbn [negb].
+      cbn [negb] in Hlu. specialize (Hli eq_refl).
+      assert (Hkn : nk it1 (leaf_of it b) = true) by (apply Hk1; [exact Hlu | lia]).
+      rewrite (Hres Hkn), Hli.
+      destruct (Z.gtb_spec l l); [lia|]. cbn [obind negb].
       destruct (tt_encode zt (eb_cbx b) (eb_cby b) 999) as [[bs2 zt1]| | |] eqn:E2; cbn [obind] in He; try discriminate.
       cbn [fst snd] in He.
       destruct (enc_numpasses np) as [bs3| | |] eqn:E3; cbn [obind] in He; try discriminate.
@@ -212,21 +224,21 @@ Proof.
       destruct (enc_lengths (eb_nlb b) (zlen data) prev np (b_termall b l) (block_pass_lens b) (block_terms b))
         as [[bs4 nlb']| | |] eqn:E4; cbn [obind] in He; try discriminate.
       apply ok_inj in He. cbn [fst snd] in He.
+      change (eb_included (eb_with b true (eb_nlb b))) with true in He.
       assert (bs = (bs1 ++ bs2) ++ bs3 ++ bs4 /\
               ei = {| ei_included := true; ei_np := np; ei_len := zlen data; ei_data := data |} /\
               b' = eb_with (eb_with b true (eb_nlb b)) true nlb' /\ it' = it1 /\ zt' = zt1)
         as [Hbs [-> [-> [-> ->]]]] by (repeat split; congruence).
       rewrite Hbs in HB1. rewrite <- !app_assoc in HB1. rewrite skipn_app, skipn_all, Nat.sub_diag in HB1.
-      cbn [skipn app] in HB1.
+      cbn [skipn app] in HB1. rewrite <- app_assoc in HB1.
       destruct (tt_query_sync zt ztd tZ (eb_cbx b) (eb_cby b) 999 32 bs2 zt1 rest r1 _ HTz Hrz
-                  ltac:(right; fold (leaf_of zt b); rewrite Hlz; lia)
-                  ltac:(fold (leaf_of zt b); rewrite Hlz; lia) E2 HB1)
-        as [res2 [ztd1 [r2 [Ed2 [HB2 [HTz1 [Hn2 [Hg2 [Hres2 Hk2]]]]]]]]].
+                  ltac:(right; fold (leaf_of zt b); rewrite Hlz; split; [exact Hlzu | lia]) E2 HB1)
+        as [res2 [ztd1 [r2 [Ed2 [HB2 [HTz1 [Hn2 [Hu2 [Hg2 [Hres2 [_ [Hk2 _]]]]]]]]]]]].
       fold (leaf_of zt b) in Hres2, Hk2. rewrite Hlz in Hres2, Hk2.
-      rewrite (Hk2 ltac:(lia)) in Hres2. subst res2.
+      assert (Hkn2 : nk zt1 (leaf_of zt b) = true) by (apply Hk2; [exact Hlzu | lia]).
+      rewrite (Hres2 Hkn2) in Ed2.
       unfold tt_decode_zbp. rewrite Ed2. cbn [obind].
       rewrite <- Enp, <- Edata, <- Eprev in E4. rewrite <- Enp in E3.
-      rewrite app_assoc in HB2.
       set (st1 := db_set st true l (eb_zbp b) (db_passes st) 3).
       destruct (cont_sync termAll b l (eb_nlb b) bs3 bs4 nlb' st1 true (eb_zbp b) itd1 ztd1 rest r2 more
                   Hok Einc E3 E4 ltac:(unfold st1, db_set; cbn [db_nlb]; rewrite (R5 eq_refl); reflexivity) R3 HB2)
@@ -236,15 +248,20 @@ Proof.
       { rewrite Ec3. unfold expect_dincl. rewrite Einc, Eincl. reflexivity. }
       split; [exact HB3|]. split; [unfold expect_eincl; rewrite Einc, Enp, Edata; reflexivity|].
       split; [exact HTi1|]. split; [eexists; exact HTz1|]. split; [exact Hn1|]. split; [exact Hn2|].
+      split; [exact Hu1|]. split; [exact Hu2|].
       split; [exact Hg1|]. split; [exact Hg2|].
       split.
       { unfold BlkRel, st1, db_set, eb_with. cbn [db_included db_nlb db_zbp eb_included eb_nlb eb_zbp].
-        repeat split; try lia; try congruence. discriminate. }
+        split; [reflexivity|]. split; [reflexivity|]. split; [rewrite Hn3; exact Hb3|].
+        split; [intros _; reflexivity | discriminate]. }
       split; [unfold same_static, eb_with; cbn; reflexivity|].
-      unfold eb_with. cbn [eb_included]. reflexivity.
+      unfold eb_with. cbn [eb_included]. rewrite Einc. reflexivity.
     + (* still not included *)
-      assert (res = 999) by (destruct (nk it1 (leaf_of it b)); assumption). subst res.
-      destruct (Z.gtb_spec 999 l); [|lia]. cbn [negb].
+      cbn [negb] in Hlu.
+      assert (Hkn : nk it1 (leaf_of it b) = false).
+      { destruct (nk it1 (leaf_of it b)) eqn:Ek; [|reflexivity]. specialize (Hk1' eq_refl). congruence. }
+      specialize (Hres' Hkn).
+      destruct (Z.gtb_spec res l); [|lia]. cbn [obind negb].
       apply ok_inj in He.
       assert (bs = bs1 /\ ei = eincl_skip false /\ b' = b /\ it' = it1 /\ zt' = zt) as [-> [-> [-> [-> ->]]]]
         by (repeat split; congruence).
@@ -253,8 +270,9 @@ Proof.
       split; [unfold expect_dincl; rewrite Einc; reflexivity|]. split; [exact HB1|].
       split; [unfold expect_eincl; rewrite Einc; reflexivity|].
       split; [exact HTi1|]. split; [exists tZ; exact HTz|]. split; [exact Hn1|]. split; [reflexivity|].
+      split; [exact Hu1|]. split; [reflexivity|].
       split; [exact Hg1|]. split; [apply same_geom_refl; exact Hgs_z|].
-      split; [unfold BlkRel; repeat split; try assumption; congruence|].
+      split; [exact HR|].
       split; [unfold same_static, eb_with; destruct b; reflexivity|].
-      rewrite Eincl. reflexivity.
+      rewrite Eincl, Einc. reflexivity.
 Qed.
